@@ -14,6 +14,7 @@ import (
 	"strconv"
 
 	"go.mongodb.org/mongo-driver/bson"
+	"go.mongodb.org/mongo-driver/bson/primitive"
 
 	"github.com/256dpi/lungo/bsonkit"
 	"github.com/256dpi/lungo/mongokit"
@@ -165,8 +166,28 @@ func bigNumberCases() [][2]bson.D {
 	return out
 }
 
+// bitsCases: the $bits* operators on negative and positive numbers of every integer width and on integral doubles,
+// with masks given as positions up to and past bit 63 (negative numbers are sign-extended to 64 bits whatever their
+// width), as numbers and as binaries longer than four bytes.
+func bitsCases() [][2]bson.D {
+	var out [][2]bson.D
+	fields := []interface{}{int32(-1), int32(-5), int64(-5), float64(-5), int32(5), int64(5), float64(5), int32(-1048576), int64(-1048576), int32(0),
+		primitive.Binary{Data: []byte{5, 0, 0, 0, 1}}, primitive.Binary{Data: []byte{0xfb, 0xff, 0xff, 0xff, 0xff, 0xff, 0xff, 0xff}}}
+	masks := []interface{}{bson.A{int32(32)}, bson.A{int32(31)}, bson.A{int32(33), int32(63)}, bson.A{int32(2), int32(40)}, bson.A{int32(0), int32(62)}, bson.A{int32(63)},
+		bson.A{int32(64)}, bson.A{int32(2)}, bson.A{int32(0), int32(1)}, bson.A{int64(35), float64(1)}, int32(4), int32(5), int64(1048576),
+		primitive.Binary{Data: []byte{0, 0, 0, 0, 1}}, primitive.Binary{Data: []byte{4, 0, 0, 0, 0, 0, 0, 128}}, primitive.Binary{Data: []byte{1, 0, 0, 0, 0, 0, 0, 0, 1}}}
+	for _, f := range fields {
+		for _, m := range masks {
+			for _, op := range []string{"$bitsAllSet", "$bitsAllClear", "$bitsAnySet", "$bitsAnyClear"} {
+				out = append(out, [2]bson.D{{{Key: "a", Value: f}}, {{Key: "a", Value: bson.D{{Key: op, Value: m}}}}})
+			}
+		}
+	}
+	return out
+}
+
 func fixedCases() [][2]bson.D {
-	return append(append(numericNameCases(), bigNumberCases()...), [][2]bson.D{
+	return append(append(append(numericNameCases(), bigNumberCases()...), bitsCases()...), [][2]bson.D{
 		// KF-C10-1: $type "array" over a fan-out path
 		{bson.D{{Key: "a", Value: bson.A{bson.D{{Key: "b", Value: bson.A{int32(1), int32(2)}}}}}}, bson.D{{Key: "a.b", Value: bson.D{{Key: "$type", Value: "array"}}}}},
 		{bson.D{{Key: "a", Value: bson.A{bson.D{{Key: "b", Value: bson.A{}}}}}}, bson.D{{Key: "a.b", Value: bson.D{{Key: "$type", Value: int32(4)}}}}},
